@@ -97,6 +97,7 @@ func (i *Index) Add(r Record, c bgzf.Chunk, placed, mapped bool) error {
 	if !ok {
 		rid = len(i.refNames)
 		i.refNames = append(i.refNames, refName)
+		i.nameMap[refName] = rid
 	}
 	shim := tabixShim{id: rid, start: r.Start(), end: r.End()}
 	return i.idx.Add(shim, internal.BinFor(r.Start(), r.End()), c, placed, mapped)
